@@ -44,3 +44,32 @@ pub proof fn lemma_er_facts(s: bool, w: int, a: int, b: int)
     lemma_p2_pos(w); lemma_p2_pos(w - 1); lemma_p2_step(w);
     if bb == 1 { lemma_mod_bound(a, 1); }
 }
+// on which side an unrepresentable product / quotient lies: decided by the operand signs
+pub proof fn lemma_sat_side_mul(s: bool, w: int, a: int, b: int, f: int)
+    requires w >= 1, fits(s, w, a), fits(s, w, b), 0 <= f <= w
+    ensures !fits(s, w, R_mul(a, b, f)) ==> (((a < 0) != (b < 0)) <==> R_mul(a, b, f) < min_of(s, w)),
+            !fits(s, w, R_mul(a, b, f)) ==> (((a < 0) == (b < 0)) <==> R_mul(a, b, f) > max_of(s, w)),
+            (a < 0) == (a < 0 * p2(f)), (b < 0) == (b < 0 * p2(f))
+{
+    lemma_p2_pos(f); lemma_p2_pos(w); lemma_p2_pos(w - 1);
+    lemma_mul_sign(a, b);
+    let p = a * b; let d = p2(f);
+    lemma_fundamental_div_mod(p, d); lemma_mod_bound(p, d);
+    // sign of floor(p / d): negative iff p < 0; non-negative iff p >= 0
+    assert((p < 0) ==> p / d < 0) by (nonlinear_arith) requires p == d * (p / d) + p % d, 0 <= p % d < d, d > 0;
+    assert((p >= 0) ==> p / d >= 0) by (nonlinear_arith) requires p == d * (p / d) + p % d, 0 <= p % d < d, d > 0;
+}
+pub proof fn lemma_sat_side_div(s: bool, w: int, a: int, b: int, f: int)
+    requires w >= 1, fits(s, w, a), fits(s, w, b), 0 <= f <= w, b != 0
+    ensures !fits(s, w, R_div(a, b, f)) ==> (((a < 0) != (b < 0)) <==> R_div(a, b, f) < min_of(s, w)),
+            !fits(s, w, R_div(a, b, f)) ==> (((a < 0) == (b < 0)) <==> R_div(a, b, f) > max_of(s, w)),
+            (a < 0) == (a < 0 * p2(f)), (b < 0) == (b < 0 * p2(f))
+{
+    lemma_p2_pos(f); lemma_p2_pos(w); lemma_p2_pos(w - 1);
+    let n = a * p2(f);
+    lemma_mul_sign(a, p2(f));
+    lemma_tz_bounds(n, b);
+    let q = tz(n, b);
+    lemma_mul_sign(q, b);
+    // q * b has the sign of n (or is zero), so q < 0 implies the signs of n and b differ, q > 0 that they agree
+}
